@@ -457,7 +457,7 @@ func FormatBinaryDateTime(n int, data []byte) ([]byte, error) {
 // FormatBinaryTime format binary time type
 func FormatBinaryTime(n int, data []byte) ([]byte, error) {
 	if n == 0 {
-		return []byte("0000-00-00"), nil
+		return []byte("00:00:00"), nil
 	} else if n == 1 {
 		if data[0] == 0 {
 			return []byte("00:00:00"), nil
